@@ -305,6 +305,26 @@ def run(ctx):
         it.hooks.pop("fnname:_md_table_to_ss_structure", None)
     r2.check(refused == "refused", "md_to_dict:no table found", "text without any Markdown table is refused with a PyXFormError (the caller then tries the csv reader)", pm.loc(), why_fail=refused[:160])
     r2.check(ok_empty, "md_to_dict:sheet without rows", "a sheet that has a name but no rows reads as an empty sheet (no exception)", pm.loc(), why_fail=repr(res)[:200])
+    # the text readers recognise their format in the first 5000 CHARACTERS of the text, whatever the characters are:
+    # a Markdown / csv definition that begins with comment lines in a multi-byte script (fewer than 5000 characters,
+    # more than 5000 bytes) is the same definition as one with ASCII comments
+    lead = ("# " + "\u0939\u093f\u0928\u094d\u0926\u0940 \u091f\u093f\u092a\u094d\u092a\u0923\u0940 " * 4 + "\n") * 40
+    assert len(lead) < 4000 and len(lead.encode("utf-8")) > 5000
+    for fq_, body_, stub_ in (("pyxform.xls2json_backends:md_to_dict", lead + "| survey |\n| | type | name | label |\n| | text | q | Q |\n", "process_md_data"),
+                              ("pyxform.xls2json_backends:csv_to_dict", lead.replace("# ", "") .replace("\n", ",,,\n") + "survey,,,\n,type,name,label\n,text,q,Q\n", "process_csv_data")):
+        fn_ = ctx.func(fq_, "C12.R2")
+        for form_, text_ in (("multi-byte comment lines first", body_), ("table first", body_[len(lead):] if "md_to" in fq_ else body_.split("\n", 40)[-1])):
+            raw_ = text_.encode("utf-8")
+            defn_ = Obj(None, {"data": Obj(None, {"getvalue": lambda i, a, k, n, raw_=raw_: raw_}, name="bytesio"), "file_type": None, "file_path_stem": None}, name="definition")
+            itm_ = ctx.interp("C12.R2", hooks={"fnname:get_definition_data": lambda i, a, k, n, defn_=defn_: defn_, f"fnname:{stub_}": lambda i, a, k, n: {"read": True},
+                                              "ext:csv.reader": lambda i, a, k, n: "READER", "ext:io.StringIO": lambda i, a, k, n: "SIO"})
+            itm_.reset([])
+            try:
+                out_ = itm_.call_function(fn_, ["ignored"], {}, None, fn_.node)
+                got_ = "read" if out_ == {"read": True} else repr(out_)[:80]
+            except Raised as e:
+                got_ = f"refused ({e.exc_name})"
+            r2.check(got_ == "read", f"{fn_.name}[{form_}]", "the text is recognised and handed to the reader", fn_.loc(), why_fail=got_)
     # typed-cell normalisers
     xv = ctx.func("pyxform.xls2json_backends:xls_value_to_unicode", "C12.R2")
     xs = ctx.func("pyxform.xls2json_backends:xlsx_value_to_str", "C12.R2")
@@ -324,6 +344,14 @@ def run(ctx):
         r2.check(b == want, f"xlsx_value_to_str[{desc}]", f"-> {want!r}", xs.loc(), why_fail=repr(b))
     it.reset([])
     r2.check(it.call_function(xs, [7], {}, None, xs.node) == "7", "xlsx_value_to_str[int]", "-> '7'", xs.loc())
+    # integer cells are exact at any size (an id, an IMEI): nothing may take them through a double
+    for big in (12345678901234567, 2 ** 53 + 1, 99999999999999999999, -9007199254740993, 0, -1):
+        it.reset([])
+        try:
+            got_big = it.call_function(xs, [big], {}, None, xs.node)
+        except Raised as e:
+            got_big = f"raises {e.exc_name}"
+        r2.check(got_big == str(big), f"xlsx_value_to_str[integer {big}]", f"-> '{big}' (exact digits, as a text container would hold them)", xs.loc(), why_fail=repr(got_big))
     ie = ctx.func("pyxform.xls2json_backends:is_empty", "C12.R2")
     for v, want in ((None, True), ("", True), ("  \t", True), ("a", False), (0, False), (False, False)):
         it.reset([])
@@ -473,6 +501,22 @@ def run(ctx):
                      "the fallback form name is the file stem whether or not the suffix is a recognised type hint", gdd.loc(), why_fail=repr(d))
         except Raised as r:
             r4.fail("get_definition_data[existing path, unrecognised suffix]", f"evaluates ({r.exc_name}{r.exc_args})", gdd.loc())
+        # a str that names an existing file is that file, whatever the name looks like (commas or pipes in a file name
+        # make it look like csv / Markdown text to the sniffers)
+        for pname in ("Kenya, Nairobi, 2024, round 2, final.xlsx", "a|b|c|d|e|f.md", "plain.xlsx"):
+            it = ctx.interp("C12.R4", hooks={"ext:io.BytesIO": h_bytesio, "ext:pathlib.Path": lambda i, a, k, n: path_obj(True), "new:Definition": lambda i, a, k, n: dict(k),
+                                            "new:SupportedFileTypes": lambda i, a, k, n: Sym("FT", truthy=True)})
+            it.reset([])
+            created.clear()
+            try:
+                d = it.call_function(gdd, [], {"definition": pname}, None, gdd.node)
+                data = d.get("data") if isinstance(d, dict) else None
+                src = data.attrs.get("src") if isinstance(data, Sym) else None
+                okp = isinstance(src, Sym) and src.name == "FILE_BYTES" and d.get("file_path_stem") == "stemname"
+                why = repr(d)[:200]
+            except Raised as r:
+                okp, why = False, f"raises {r.exc_name}{r.exc_args}"
+            r4.check(okp, f"get_definition_data[str naming an existing file: {pname!r}]", "the file is read (its bytes are the data, its stem the fallback name)", gdd.loc(), why_fail=why)
     if not memo_bad:
         _evaluate_gdd()
     # the dict channel: every field a reader can produce (sheets, their header rows, sheet names, fallback name) is
